@@ -220,3 +220,21 @@ package hrpc
 
 //@ func hrpc.Batchable.SkipBatch() (r)
 //@   pure
+
+// ---- the immutable parameters of a scan (read-only getters) ----
+//@ func hrpc.(*Scan).StopRow
+//@   pure
+//@ func hrpc.(*Scan).StartRow
+//@   pure
+//@ func hrpc.(*Scan).IsClosing
+//@   pure
+//@ func hrpc.(*Scan).AllowPartialResults
+//@   pure
+//@ func hrpc.(*Scan).Reversed
+//@   pure
+//@ func hrpc.(*Scan).NumberOfRows
+//@   pure
+//@ func hrpc.(*Scan).TrackScanMetrics
+//@   pure
+//@ func hrpc.(*Scan).RenewInterval
+//@   pure
